@@ -29,6 +29,7 @@ func buildProperties() []Property {
 				{"R-ESCAPE-TABLES", 12, ruleEscapeTables},
 				{"R-ESCAPE-VALIDATED", 1, ruleEscapeValidated},
 				{"R-BRACKET-PRIORITY", 2, ruleBracketPriority},
+				{"R-INFIX-PRIORITY", 2, ruleInfixPriority},
 				{"R-FLOAT-TEXT", 2, ruleFloatText},
 				{"R-TEXT-RUNE", 8, ruleTextRune},
 				{"R-OPS-SOURCE", 4, ruleOpsSource},
@@ -89,8 +90,8 @@ func buildProperties() []Property {
 			Decides:    "whole-program discipline for package-level state, recomputed from the source on every run: every run-time write to a package-level variable is under that variable's mutex or atomic; a variable written after init is read only under the lock or atomically; package-level maps are only read after init; no store can reach an object shared through a package-level variable (default write options, singleton promises, root environment). Hence the only state shared between two interpreters is guarded (no data race on library state for any schedule) and nothing one interpreter changes is reachable from another.",
 			NotDecided: "equality of answers with a sequential run; races inside host-provided readers/writers; the VM fields themselves (one goroutine per interpreter is assumed by the property).",
 			Rules: []RuleDef{
-{"R-LOCK-LEAF", 2, ruleLockLeaf},
-								{"R-ATOMIC-RMW", 1, ruleAtomicRMW},
+				{"R-LOCK-LEAF", 2, ruleLockLeaf},
+				{"R-ATOMIC-RMW", 1, ruleAtomicRMW},
 				{"R-GLOBAL-WRITES", 10, only("R-GLOBAL-WRITES", ruleGlobalState)},
 				{"R-GLOBAL-READS", 3, only("R-GLOBAL-READS", ruleGlobalState)},
 				{"R-GLOBAL-TABLES", 4, only("R-GLOBAL-TABLES", ruleGlobalState)},
